@@ -208,24 +208,10 @@ def driver_case():
                 bounded="mock engine whose run() returns true k = 0..3 times")
 
 
-def lean_step(tier, seed):
-    """L-schedule is machine-checked: lemmas/Schedule.lean (Lean 4 core, no axioms, no sorry)"""
-    import os
-    import subprocess
-    here = os.path.dirname(os.path.dirname(os.path.abspath(__file__)))
-    f = os.path.join(here, "lemmas", "Schedule.lean")
-    out = {"name": "lean: L-schedule (after_end, compose_true, unique_end)", "violations": [], "undecided": [], "runs": 1}
-    try:
-        src = open(f).read()
-        p = subprocess.run(["lean", f], capture_output=True, text=True, timeout=300)
-        if p.returncode != 0 or "sorry" in src or "axiom" in src.replace("no axioms", ""):
-            out["undecided"].append({"obligation": "C08/lemma/L-schedule", "detail": (p.stdout + p.stderr)[-500:] or "sorry/axiom in source"})
-    except Exception as e:       # lean missing: the lemma is then an assumption, reported as undecided
-        out["undecided"].append({"obligation": "C08/lemma/L-schedule", "detail": repr(e)})
-    return out
+from vc.core.leanstep import lean_step as _lean_step
 
 
-EXTRA = [lean_step]
+EXTRA = [_lean_step("Schedule.lean", "C08", ["after_end", "compose_true", "unique_end"])]
 CASES = [seed_case(), driver_case()]
 if z3 is not None:
     for _c in CLASSES:
